@@ -1,873 +1,4 @@
-/- GENERATED by translator/smallset2lean.py from include/amc/smallset.hpp (instantiations amc::SmallSet<int, 5, std::less<int>, amc::allocator<int>, amc::FlatSet<int>>, amc::SmallSet<int, 7, std::less<int>, amc::allocator<int>, std::set<int>>, which give the same text; a definition called `…_ptr` / `…_var` comes from the first / second instantiation only: the overloads for pointer iterators / variant iterators, or a member that calls them). Do not edit. -/
-import AmcVerif.Model.Sets
-set_option linter.unusedVariables false
+/- smallset2lean.py FAILED on the current source: TRANSLATION-BROKEN smallset2lean: [SetType = amc::FlatSet<int>] smallset.hpp:590: call of `ComputeSortedPtrVec` of an unknown shape
+ -/
 namespace AmcVerif.Gen.SmallSet
-open AmcVerif
-variable {α : Type}
-
-/-- how the source decides the state of another set (`o.isSmall()` inside `merge`) -/
-def isSmallOf (o : Sets.SSet α) : Bool := o.set.isEmpty
-
-/-- the loop `for (it = o._vec.begin(); it != o._vec.end();) BODY` where BODY ends with `it = o._vec.erase(it)` or `++it`:
-    a fold of the generated body over the elements of `o._vec`; `kept` collects the elements that stay in `o._vec`.
-    Result: (state, flag, what is left in `o._vec`, comparator calls) -/
-def foldStep (step : Sets.SSet α → Bool → α → Option (Sets.SSet α × Bool × Bool × Nat)) :
-    List α → Sets.SSet α → Bool → List α → Option (Sets.SSet α × Bool × List α × Nat)
-  | [], s, fl, kept => some (s, fl, kept, 0)
-  | x :: rest, s, fl, kept =>
-    match step s fl x with
-    | none => none
-    | some r =>
-      match foldStep step rest r.1 r.2.1 (if r.2.2.1 then kept else kept ++ [x]) with
-      | none => none
-      | some q => some (q.1, q.2.1, q.2.2.1, r.2.2.2 + q.2.2.2)
-
-/-- `operator==` of the backing set: equal sizes and `std::equal`, with `==` of the ELEMENT type -/
-def vecEq (eqT : α → α → Bool) : List α → List α → Bool
-  | [], [] => true
-  | a :: l, b :: o => eqT a b && vecEq eqT l o
-  | _, _ => false
-
-/-- `std::lexicographical_compare` (also `operator<` of the backing set), with `<` of the ELEMENT type -/
-def vecLess (ltT : α → α → Bool) : List α → List α → Bool
-  | _, [] => false
-  | [], _ :: _ => true
-  | a :: l, b :: o => if ltT a b then true else if ltT b a then false else vecLess ltT l o
-
-/-- `std::is_permutation(f1, l1, f2, l2)` with `==` of the ELEMENT type (`List.isPerm` of the Lean core library) -/
-def isPermutation (eqT : α → α → Bool) (l o : List α) : Bool := @List.isPerm α ⟨eqT⟩ l o
-
-/-- `std::sort(v.begin(), v.end(), comp)`: SOME permutation of the elements that is sorted by `comp` (std::sort is not stable);
-    all of them coincide when no two elements are equivalent under `comp`; the stable one is taken here -/
-def sortedBy (comp : α → α → Bool) (l : List α) : List α := l.mergeSort (fun a b => !comp b a)
-
-/-- a `while` loop whose condition and body are `step` (another round?, new state, comparator calls), run for at most `fuel`
-    rounds; running out of fuel is not a result (`none`) -/
-def whileFuel {σ : Type} (step : σ → Option (Bool × σ × Nat)) : Nat → σ → Option (σ × Nat)
-  | 0, _ => none
-  | fuel + 1, s =>
-    match step s with
-    | none => none
-    | some r =>
-      if r.1 then
-        match whileFuel step fuel r.2.1 with
-        | none => none
-        | some q => some (q.1, r.2.2 + q.2)
-      else
-        some (r.2.1, r.2.2)
-
-/-- smallset.hpp:657 `FindFunctor::operator()(cref) const` of a functor built on the key `k`: (returned value, comparator calls) -/
-def FindFunctor_call (lt : α → α → Bool) (k : α) (o_ : α) : Option (Bool × Nat) :=
-  if lt k o_ then  -- L657
-    some (false, 1)
-  else
-    if lt o_ k then  -- L657
-      some (false, 2)
-    else
-      some (true, 2)
-
-/-- smallset.hpp:678 `isSmall() const`: (returned value, comparator calls of the inline scans); `none` = undefined behaviour -/
-def isSmall (lt : α → α → Bool) (N : Nat) (s : Sets.SSet α) : Option (Bool × Nat) :=
-  some (s.set.isEmpty, 0)
-
-/-- smallset.hpp:679 `isSmallContFull() const`: (returned value, comparator calls of the inline scans); `none` = undefined behaviour -/
-def isSmallContFull (lt : α → α → Bool) (N : Nat) (s : Sets.SSet α) : Option (Bool × Nat) :=
-  some (decide (s.vec.length = N), 0)
-
-/-- smallset.hpp:673 `grow()`: (state, returned value, comparator calls of the inline scans); `none` = undefined behaviour -/
-def grow (lt : α → α → Bool) (N : Nat) (s : Sets.SSet α) : Option (Sets.SSet α × Unit × Nat) :=
-  some (⟨[], Sets.insertAll lt s.set s.vec⟩, (), 0)
-
-/-- smallset.hpp:669 `find_small(cref) const`: (returned value, comparator calls of the inline scans); `none` = undefined behaviour -/
-def find_small (lt : α → α → Bool) (N : Nat) (s : Sets.SSet α) (k : α) : Option (Nat × Nat) :=
-  let r0 := Sets.findSmall lt s.vec k 0  -- L670
-  some (r0.1.getD s.vec.length, r0.2)
-
-/-- smallset.hpp:664 `mfind_small(cref)`: (state, returned value, comparator calls of the inline scans); `none` = undefined behaviour -/
-def mfind_small (lt : α → α → Bool) (N : Nat) (s : Sets.SSet α) (k : α) : Option (Sets.SSet α × Nat × Nat) :=
-  let r0 := Sets.findSmall lt s.vec k 0  -- L665
-  some (s, r0.1.getD s.vec.length, r0.2)
-
-/-- smallset.hpp:635 `insert_small(cref)`: (state, returned value, comparator calls of the inline scans); `none` = undefined behaviour -/
-def insert_small (lt : α → α → Bool) (N : Nat) (s : Sets.SSet α) (v : α) : Option (Sets.SSet α × ((Bool × Nat) × Bool) × Nat) :=
-  match mfind_small lt N s v with  -- L636
-  | none => none
-  | some r0 =>
-    if r0.2.1 = r0.1.vec.length then  -- L638
-      match isSmallContFull lt N r0.1 with  -- L639
-      | none => none
-      | some r1 =>
-        if r1.1 then  -- L639
-          match grow lt N r0.1 with  -- L640
-          | none => none
-          | some r2 =>
-            let r3 := FS.insertVal lt r2.1.set v  -- L641
-            some (⟨r2.1.vec, r3.1⟩, ((false, r3.2.1), r3.2.2), r0.2.2 + r1.2 + r2.2.2)
-        else
-          some (⟨r0.1.vec ++ [v], r0.1.set⟩, ((true, r0.2.1), true), r0.2.2 + r1.2)
-    else
-      some (r0.1, ((true, r0.2.1), false), r0.2.2)
-
-/-- smallset.hpp:635 `insert_small(rref)`: (state, returned value, comparator calls of the inline scans); `none` = undefined behaviour -/
-def insert_small_rv (lt : α → α → Bool) (N : Nat) (s : Sets.SSet α) (v : α) : Option (Sets.SSet α × ((Bool × Nat) × Bool) × Nat) :=
-  match mfind_small lt N s v with  -- L636
-  | none => none
-  | some r0 =>
-    if r0.2.1 = r0.1.vec.length then  -- L638
-      match isSmallContFull lt N r0.1 with  -- L639
-      | none => none
-      | some r1 =>
-        if r1.1 then  -- L639
-          match grow lt N r0.1 with  -- L640
-          | none => none
-          | some r2 =>
-            let r3 := FS.insertVal lt r2.1.set v  -- L641
-            some (⟨r2.1.vec, r3.1⟩, ((false, r3.2.1), r3.2.2), r0.2.2 + r1.2 + r2.2.2)
-        else
-          some (⟨r0.1.vec ++ [v], r0.1.set⟩, ((true, r0.2.1), true), r0.2.2 + r1.2)
-    else
-      some (r0.1, ((true, r0.2.1), false), r0.2.2)
-
-/-- smallset.hpp:649 `insert_set(cref)`: (state, returned value, comparator calls of the inline scans); `none` = undefined behaviour -/
-def insert_set (lt : α → α → Bool) (N : Nat) (s : Sets.SSet α) (v : α) : Option (Sets.SSet α × ((Bool × Nat) × Bool) × Nat) :=
-  let r0 := FS.insertVal lt s.set v  -- L650
-  some (⟨s.vec, r0.1⟩, ((false, r0.2.1), r0.2.2), 0)
-
-/-- smallset.hpp:649 `insert_set(rref)`: (state, returned value, comparator calls of the inline scans); `none` = undefined behaviour -/
-def insert_set_rv (lt : α → α → Bool) (N : Nat) (s : Sets.SSet α) (v : α) : Option (Sets.SSet α × ((Bool × Nat) × Bool) × Nat) :=
-  let r0 := FS.insertVal lt s.set v  -- L650
-  some (⟨s.vec, r0.1⟩, ((false, r0.2.1), r0.2.2), 0)
-
-/-- smallset.hpp:290 `insert(cref)`: (state, returned value, comparator calls of the inline scans); `none` = undefined behaviour -/
-def insert (lt : α → α → Bool) (N : Nat) (s : Sets.SSet α) (v : α) : Option (Sets.SSet α × ((Bool × Nat) × Bool) × Nat) :=
-  match isSmall lt N s with  -- L290
-  | none => none
-  | some r0 =>
-    if r0.1 then  -- L290
-      match insert_small lt N s v with  -- L290
-      | none => none
-      | some r1 =>
-        some (r1.1, ((r1.2.1.1.1, r1.2.1.1.2), r1.2.1.2), r0.2 + r1.2.2)
-    else
-      match insert_set lt N s v with  -- L290
-      | none => none
-      | some r1 =>
-        some (r1.1, ((r1.2.1.1.1, r1.2.1.1.2), r1.2.1.2), r0.2 + r1.2.2)
-
-/-- smallset.hpp:292 `insert(rref)`: (state, returned value, comparator calls of the inline scans); `none` = undefined behaviour -/
-def insert_rv (lt : α → α → Bool) (N : Nat) (s : Sets.SSet α) (v : α) : Option (Sets.SSet α × ((Bool × Nat) × Bool) × Nat) :=
-  match isSmall lt N s with  -- L292
-  | none => none
-  | some r0 =>
-    if r0.1 then  -- L292
-      match insert_small_rv lt N s v with  -- L292
-      | none => none
-      | some r1 =>
-        some (r1.1, ((r1.2.1.1.1, r1.2.1.1.2), r1.2.1.2), r0.2 + r1.2.2)
-    else
-      match insert_set_rv lt N s v with  -- L292
-      | none => none
-      | some r1 =>
-        some (r1.1, ((r1.2.1.1.1, r1.2.1.1.2), r1.2.1.2), r0.2 + r1.2.2)
-
-/-- smallset.hpp:343 `emplace(cref)`: (state, returned value, comparator calls of the inline scans); `none` = undefined behaviour -/
-def emplace (lt : α → α → Bool) (N : Nat) (s : Sets.SSet α) (args : α) : Option (Sets.SSet α × ((Bool × Nat) × Bool) × Nat) :=
-  match isSmall lt N s with  -- L344
-  | none => none
-  | some r0 =>
-    if r0.1 then  -- L344
-      match isSmallContFull lt N s with  -- L347
-      | none => none
-      | some r1 =>
-        if r1.1 then  -- L347
-          match insert_rv lt N s args with  -- L348
-          | none => none
-          | some r2 =>
-            some (r2.1, ((r2.2.1.1.1, r2.2.1.1.2), r2.2.1.2), r0.2 + r1.2 + r2.2.2)
-        else
-          match (s.vec ++ [args])[s.vec.length]? with  -- L351
-          | none => none
-          | some x2 =>
-            let r3 := Sets.findSmall lt ((s.vec ++ [args]).take s.vec.length) x2 0  -- L351
-            if r3.1.getD s.vec.length = s.vec.length then  -- L353
-              some (⟨s.vec ++ [args], s.set⟩, ((true, s.vec.length), true), r0.2 + r1.2 + r3.2)
-            else
-              if (s.vec ++ [args]).length = 0 then  -- L354 (pop_back)
-                none  -- pop_back() on an empty vector
-              else
-                some (⟨(s.vec ++ [args]).dropLast, s.set⟩, ((true, r3.1.getD s.vec.length), false), r0.2 + r1.2 + r3.2)
-    else
-      let r1 := FS.insertVal lt s.set args  -- L345
-      some (⟨s.vec, r1.1⟩, ((false, r1.2.1), r1.2.2), r0.2)
-
-/-- smallset.hpp:369 `find(cref) const`: (returned value, comparator calls of the inline scans); `none` = undefined behaviour -/
-def find (lt : α → α → Bool) (N : Nat) (s : Sets.SSet α) (k : α) : Option ((Bool × Nat) × Nat) :=
-  match isSmall lt N s with  -- L370
-  | none => none
-  | some r0 =>
-    if r0.1 then  -- L370
-      match find_small lt N s k with  -- L370
-      | none => none
-      | some r1 =>
-        some ((true, r1.1), r0.2 + r1.2)
-    else
-      some ((false, (Sets.findC lt s.set k).1.getD s.set.length), r0.2)
-
-/-- smallset.hpp:379 `contains(cref) const`: (returned value, comparator calls of the inline scans); `none` = undefined behaviour -/
-def contains (lt : α → α → Bool) (N : Nat) (s : Sets.SSet α) (k : α) : Option (Bool × Nat) :=
-  match isSmall lt N s with  -- L379
-  | none => none
-  | some r0 =>
-    if r0.1 then  -- L379
-      match find_small lt N s k with  -- L379
-      | none => none
-      | some r1 =>
-        if r1.1 = s.vec.length then  -- L379
-          some (false, r0.2 + r1.2)
-        else
-          some (true, r0.2 + r1.2)
-    else
-      some ((Sets.findC lt s.set k).1.isSome, r0.2)
-
-/-- smallset.hpp:387 `count(cref) const`: (returned value, comparator calls of the inline scans); `none` = undefined behaviour -/
-def count (lt : α → α → Bool) (N : Nat) (s : Sets.SSet α) (v : α) : Option (Nat × Nat) :=
-  match contains lt N s v with  -- L387
-  | none => none
-  | some r0 =>
-    if r0.1 then  -- L387
-      some (1, r0.2)
-    else
-      some (0, r0.2)
-
-/-- smallset.hpp:395 `erase(cref)`: (state, returned value, comparator calls of the inline scans); `none` = undefined behaviour -/
-def erase (lt : α → α → Bool) (N : Nat) (s : Sets.SSet α) (v : α) : Option (Sets.SSet α × Nat × Nat) :=
-  match isSmall lt N s with  -- L396
-  | none => none
-  | some r0 =>
-    if r0.1 then  -- L396
-      match mfind_small lt N s v with  -- L399
-      | none => none
-      | some r1 =>
-        if r1.2.1 = r1.1.vec.length then  -- L400
-          some (r1.1, 0, r0.2 + r1.2.2)
-        else
-          if r1.2.1 < r1.1.vec.length then  -- L403 (_vec.erase)
-            some (⟨r1.1.vec.eraseIdx r1.2.1, r1.1.set⟩, 1, r0.2 + r1.2.2)
-          else
-            none  -- _vec.erase of an iterator outside [begin, end)
-    else
-      let r1 := Sets.eraseKey lt s.set v  -- L397
-      some (⟨s.vec, r1.1⟩, r1.2.1, r0.2)
-
-/-- smallset.hpp:408 `erase(iter, ignored)`: (state, returned value, comparator calls of the inline scans); `none` = undefined behaviour -/
-def erase_at_ptr (lt : α → α → Bool) (N : Nat) (s : Sets.SSet α) (pos : Bool × Nat) : Option (Sets.SSet α × (Bool × Nat) × Nat) :=
-  match isSmall lt N s with  -- L409
-  | none => none
-  | some r0 =>
-    if r0.1 then  -- L409
-      if pos.1 then  -- L410 (_vec.erase: needs an iterator of the inline vector)
-        if pos.2 < s.vec.length then  -- L410 (_vec.erase)
-          some (⟨s.vec.eraseIdx pos.2, s.set⟩, (true, pos.2), r0.2)
-        else
-          none  -- _vec.erase of an iterator outside [begin, end)
-      else
-        none  -- _vec.erase: an iterator of the backing set is used as an iterator of the inline vector
-    else
-      if pos.1 then  -- L412 (_set.erase: needs an iterator of the backing set)
-        none  -- _set.erase: an iterator of the inline vector is used as an iterator of the backing set
-      else
-        if pos.2 < s.set.length then  -- L412 (_set.erase)
-          if (s.set.eraseIdx pos.2).isEmpty then  -- L414
-            match isSmall lt N ⟨s.vec, s.set.eraseIdx pos.2⟩ with  -- L261
-            | none => none
-            | some r1 =>
-              if r1.1 then  -- L261
-                some (⟨s.vec, s.set.eraseIdx pos.2⟩, (true, s.vec.length), r0.2 + r1.2)
-              else
-                some (⟨s.vec, s.set.eraseIdx pos.2⟩, (false, (s.set.eraseIdx pos.2).length), r0.2 + r1.2)
-          else
-            some (⟨s.vec, s.set.eraseIdx pos.2⟩, (false, pos.2), r0.2)
-        else
-          none  -- _set.erase of an iterator outside [begin, end)
-
-/-- smallset.hpp:418 `erase(iter, ignored)`: (state, returned value, comparator calls of the inline scans); `none` = undefined behaviour -/
-def erase_at_var (lt : α → α → Bool) (N : Nat) (s : Sets.SSet α) (pos : Bool × Nat) : Option (Sets.SSet α × (Bool × Nat) × Nat) :=
-  match isSmall lt N s with  -- L419
-  | none => none
-  | some r0 =>
-    if r0.1 then  -- L419
-      if pos.1 then  -- L420 (toVecIt(): needs an iterator of the inline vector)
-        if pos.2 < s.vec.length then  -- L420 (_vec.erase)
-          some (⟨s.vec.eraseIdx pos.2, s.set⟩, (true, pos.2), r0.2)
-        else
-          none  -- _vec.erase of an iterator outside [begin, end)
-      else
-        none  -- toVecIt(): an iterator of the backing set is used as an iterator of the inline vector
-    else
-      if pos.1 then  -- L422 (toSetIt(): needs an iterator of the backing set)
-        none  -- toSetIt(): an iterator of the inline vector is used as an iterator of the backing set
-      else
-        if pos.2 < s.set.length then  -- L422 (_set.erase)
-          if (s.set.eraseIdx pos.2).isEmpty then  -- L424
-            match isSmall lt N ⟨s.vec, s.set.eraseIdx pos.2⟩ with  -- L261
-            | none => none
-            | some r1 =>
-              if r1.1 then  -- L261
-                some (⟨s.vec, s.set.eraseIdx pos.2⟩, (true, s.vec.length), r0.2 + r1.2)
-              else
-                some (⟨s.vec, s.set.eraseIdx pos.2⟩, (false, (s.set.eraseIdx pos.2).length), r0.2 + r1.2)
-          else
-            some (⟨s.vec, s.set.eraseIdx pos.2⟩, (false, pos.2), r0.2)
-        else
-          none  -- _set.erase of an iterator outside [begin, end)
-
-/-- smallset.hpp:282 `clear()`: (state, returned value, comparator calls of the inline scans); `none` = undefined behaviour -/
-def clear (lt : α → α → Bool) (N : Nat) (s : Sets.SSet α) : Option (Sets.SSet α × Unit × Nat) :=
-  match isSmall lt N s with  -- L283
-  | none => none
-  | some r0 =>
-    if r0.1 then  -- L283
-      some (⟨[], s.set⟩, (), r0.2)
-    else
-      some (⟨s.vec, []⟩, (), r0.2)
-
-/-- smallset.hpp:276 `size() const`: (returned value, comparator calls of the inline scans); `none` = undefined behaviour -/
-def size (lt : α → α → Bool) (N : Nat) (s : Sets.SSet α) : Option (Nat × Nat) :=
-  match isSmall lt N s with  -- L276
-  | none => none
-  | some r0 =>
-    if r0.1 then  -- L276
-      some (s.vec.length, r0.2)
-    else
-      some (s.set.length, r0.2)
-
-/-- smallset.hpp:274 `empty() const`: (returned value, comparator calls of the inline scans); `none` = undefined behaviour -/
-def empty (lt : α → α → Bool) (N : Nat) (s : Sets.SSet α) : Option (Bool × Nat) :=
-  if s.vec.isEmpty then  -- L274
-    if s.set.isEmpty then  -- L274
-      some (true, 0)
-    else
-      some (false, 0)
-  else
-    some (false, 0)
-
-/-- smallset.hpp:497 body of the loop of `merge` over the elements `x` of `o._vec`: (state, `small`, element erased from `o._vec`?, comparator calls of the inline scans) -/
-def merge_step (lt : α → α → Bool) (N : Nat) (s : Sets.SSet α) (small : Bool) (x : α) : Option (Sets.SSet α × Bool × Bool × Nat) :=
-  if small then  -- L499
-    let r0 := Sets.findSmall lt s.vec x 0  -- L500
-    if r0.1.isNone then  -- L500
-      match isSmallContFull lt N s with  -- L501
-      | none => none
-      | some r1 =>
-        if r1.1 then  -- L501
-          match grow lt N s with  -- L502
-          | none => none
-          | some r2 =>
-            let r3 := FS.insertVal lt r2.1.set x  -- L504
-            some (⟨r2.1.vec, r3.1⟩, false, true, r0.2 + r1.2 + r2.2.2)
-        else
-          some (⟨s.vec ++ [x], s.set⟩, small, true, r0.2 + r1.2)
-    else
-      some (s, small, false, r0.2)
-  else
-    let r0 := FS.insertVal lt s.set x  -- L513
-    if r0.2.2 then  -- L513
-      some (⟨s.vec, r0.1⟩, small, true, 0)
-    else
-      some (⟨s.vec, r0.1⟩, small, false, 0)
-
-/-- smallset.hpp:488 `merge(other)`: (state, state of the other set, returned value, comparator calls of the inline scans); `none` = undefined behaviour -/
-def merge (lt : α → α → Bool) (N : Nat) (s : Sets.SSet α) (o : Sets.SSet α) : Option (Sets.SSet α × Sets.SSet α × Unit × Nat) :=
-  if isSmallOf o then  -- L489
-    match isSmall lt N s with  -- L496
-    | none => none
-    | some r0 =>
-      match foldStep (merge_step lt N) o.vec s r0.1 [] with  -- L497
-      | none => none
-      | some r1 =>
-        some (r1.1, ⟨r1.2.2.1, o.set⟩, (), r0.2 + r1.2.2.2)
-  else
-    match isSmall lt N s with  -- L490
-    | none => none
-    | some r0 =>
-      if r0.1 then  -- L490
-        match grow lt N s with  -- L491
-        | none => none
-        | some r1 =>
-          let r2 := Sets.mergeFrom lt r1.1.set o.set  -- L493
-          some (⟨r1.1.vec, r2.1⟩, ⟨o.vec, r2.2⟩, (), r0.2 + r1.2.2)
-      else
-        let r1 := Sets.mergeFrom lt s.set o.set  -- L493
-        some (⟨s.vec, r1.1⟩, ⟨o.vec, r1.2⟩, (), r0.2)
-
-/-- smallset.hpp:297 condition and body of the loop of `insert(range, range)` over the input range `vs`: (another round?, (state, `first`), comparator calls of the inline scans) -/
-def insert_range_step (lt : α → α → Bool) (N : Nat) (s : Sets.SSet α) (vs : List α) (first : Nat) : Option (Bool × (Sets.SSet α × Nat) × Nat) :=
-  match isSmall lt N s with  -- L297
-  | none => none
-  | some r0 =>
-    if r0.1 then  -- L297
-      if first = vs.length then  -- L297
-        some (false, (s, first), r0.2)
-      else
-        match vs[first]? with  -- L298
-        | none => none
-        | some x1 =>
-          match insert_small lt N s x1 with  -- L298
-          | none => none
-          | some r2 =>
-            some (true, (r2.1, first + 1), r0.2 + r2.2.2)
-    else
-      some (false, (s, first), r0.2)
-
-/-- smallset.hpp:295 `insert(range, range)`: (state, returned value, comparator calls of the inline scans); `none` = undefined behaviour -/
-def insert_range (lt : α → α → Bool) (N : Nat) (s : Sets.SSet α) (vs : List α) : Option (Sets.SSet α × Unit × Nat) :=
-  match whileFuel (fun st => insert_range_step lt N st.1 vs st.2) (vs.length + 1) (s, 0) with  -- L297
-  | none => none
-  | some r0 =>
-    match isSmall lt N r0.1.1 with  -- L302
-    | none => none
-    | some r1 =>
-      if r1.1 then  -- L302
-        some (r0.1.1, (), r0.2 + r1.2)
-      else
-        if r0.1.2 = vs.length then  -- L302
-          some (r0.1.1, (), r0.2 + r1.2)
-        else
-          some (⟨r0.1.1.vec, Sets.insertAll lt r0.1.1.set (vs.drop r0.1.2)⟩, (), r0.2 + r1.2)
-
-/-- smallset.hpp:317 `insert(ilist)`: (state, returned value, comparator calls of the inline scans); `none` = undefined behaviour -/
-def insert_ilist (lt : α → α → Bool) (N : Nat) (s : Sets.SSet α) (ilist : List α) : Option (Sets.SSet α × Unit × Nat) :=
-  match insert_range lt N s ilist with  -- L317
-  | none => none
-  | some r0 =>
-    some (r0.1, (), r0.2.2)
-
-/-- smallset.hpp:251 `operator=(ilist)`: (state, returned value, comparator calls of the inline scans); `none` = undefined behaviour -/
-def assign_ilist (lt : α → α → Bool) (N : Nat) (s : Sets.SSet α) (list : List α) : Option (Sets.SSet α × Unit × Nat) :=
-  match clear lt N s with  -- L252
-  | none => none
-  | some r0 =>
-    match insert_range lt N r0.1 list with  -- L253
-    | none => none
-    | some r1 =>
-      some (r1.1, (), r0.2.2 + r1.2.2)
-
-/-- smallset.hpp:234 `SmallSet(range, range, comp, alloc)`: (state, returned value, comparator calls of the inline scans); `none` = undefined behaviour -/
-def ctor_range (lt : α → α → Bool) (N : Nat) (vs : List α) : Option (Sets.SSet α × Unit × Nat) :=
-  match insert_range lt N ⟨[], []⟩ vs with  -- L236
-  | none => none
-  | some r0 =>
-    some (r0.1, (), r0.2.2)
-
-/-- smallset.hpp:246 `SmallSet(ilist, comp, alloc)`: (state, returned value, comparator calls of the inline scans); `none` = undefined behaviour -/
-def ctor_ilist (lt : α → α → Bool) (N : Nat) (list : List α) : Option (Sets.SSet α × Unit × Nat) :=
-  match ctor_range lt N list with  -- L247
-  | none => none
-  | some r0 =>
-    some (r0.1, (), r0.2.2)
-
-/-- smallset.hpp:428 `erase(iter, iter, ignored)`: (state, returned value, comparator calls of the inline scans); `none` = undefined behaviour -/
-def erase_range_ptr (lt : α → α → Bool) (N : Nat) (s : Sets.SSet α) (first : Bool × Nat) (last : Bool × Nat) : Option (Sets.SSet α × (Bool × Nat) × Nat) :=
-  match isSmall lt N s with  -- L430
-  | none => none
-  | some r0 =>
-    if r0.1 then  -- L430
-      if first.1 then  -- L431 (_vec.erase: needs an iterator of the inline vector)
-        if last.1 then  -- L431 (_vec.erase: needs an iterator of the inline vector)
-          if first.2 ≤ last.2 then  -- L431 (_vec.erase: first <= last)
-            if last.2 ≤ s.vec.length then  -- L431 (_vec.erase: last <= end())
-              some (⟨s.vec.take first.2 ++ s.vec.drop last.2, s.set⟩, (true, first.2), r0.2)
-            else
-              none  -- _vec.erase of a range that ends after end()
-          else
-            none  -- _vec.erase of a range with last before first
-        else
-          none  -- _vec.erase: an iterator of the backing set is used as an iterator of the inline vector
-      else
-        none  -- _vec.erase: an iterator of the backing set is used as an iterator of the inline vector
-    else
-      if first.1 then  -- L433 (_set.erase: needs an iterator of the backing set)
-        none  -- _set.erase: an iterator of the inline vector is used as an iterator of the backing set
-      else
-        if last.1 then  -- L433 (_set.erase: needs an iterator of the backing set)
-          none  -- _set.erase: an iterator of the inline vector is used as an iterator of the backing set
-        else
-          if first.2 ≤ last.2 then  -- L433 (_set.erase: first <= last)
-            if last.2 ≤ s.set.length then  -- L433 (_set.erase: last <= end())
-              if (s.set.take first.2 ++ s.set.drop last.2).isEmpty then  -- L434
-                match isSmall lt N ⟨s.vec, s.set.take first.2 ++ s.set.drop last.2⟩ with  -- L261
-                | none => none
-                | some r1 =>
-                  if r1.1 then  -- L261
-                    some (⟨s.vec, s.set.take first.2 ++ s.set.drop last.2⟩, (true, s.vec.length), r0.2 + r1.2)
-                  else
-                    some (⟨s.vec, s.set.take first.2 ++ s.set.drop last.2⟩, (false, (s.set.take first.2 ++ s.set.drop last.2).length), r0.2 + r1.2)
-              else
-                some (⟨s.vec, s.set.take first.2 ++ s.set.drop last.2⟩, (false, first.2), r0.2)
-            else
-              none  -- _set.erase of a range that ends after end()
-          else
-            none  -- _set.erase of a range with last before first
-
-/-- smallset.hpp:438 `erase(iter, iter, ignored)`: (state, returned value, comparator calls of the inline scans); `none` = undefined behaviour -/
-def erase_range_var (lt : α → α → Bool) (N : Nat) (s : Sets.SSet α) (first : Bool × Nat) (last : Bool × Nat) : Option (Sets.SSet α × (Bool × Nat) × Nat) :=
-  match isSmall lt N s with  -- L440
-  | none => none
-  | some r0 =>
-    if r0.1 then  -- L440
-      if first.1 then  -- L441 (toVecIt(): needs an iterator of the inline vector)
-        if last.1 then  -- L441 (toVecIt(): needs an iterator of the inline vector)
-          if first.2 ≤ last.2 then  -- L441 (_vec.erase: first <= last)
-            if last.2 ≤ s.vec.length then  -- L441 (_vec.erase: last <= end())
-              some (⟨s.vec.take first.2 ++ s.vec.drop last.2, s.set⟩, (true, first.2), r0.2)
-            else
-              none  -- _vec.erase of a range that ends after end()
-          else
-            none  -- _vec.erase of a range with last before first
-        else
-          none  -- toVecIt(): an iterator of the backing set is used as an iterator of the inline vector
-      else
-        none  -- toVecIt(): an iterator of the backing set is used as an iterator of the inline vector
-    else
-      if first.1 then  -- L443 (toSetIt(): needs an iterator of the backing set)
-        none  -- toSetIt(): an iterator of the inline vector is used as an iterator of the backing set
-      else
-        if last.1 then  -- L443 (toSetIt(): needs an iterator of the backing set)
-          none  -- toSetIt(): an iterator of the inline vector is used as an iterator of the backing set
-        else
-          if first.2 ≤ last.2 then  -- L443 (_set.erase: first <= last)
-            if last.2 ≤ s.set.length then  -- L443 (_set.erase: last <= end())
-              if (s.set.take first.2 ++ s.set.drop last.2).isEmpty then  -- L444
-                match isSmall lt N ⟨s.vec, s.set.take first.2 ++ s.set.drop last.2⟩ with  -- L261
-                | none => none
-                | some r1 =>
-                  if r1.1 then  -- L261
-                    some (⟨s.vec, s.set.take first.2 ++ s.set.drop last.2⟩, (true, s.vec.length), r0.2 + r1.2)
-                  else
-                    some (⟨s.vec, s.set.take first.2 ++ s.set.drop last.2⟩, (false, (s.set.take first.2 ++ s.set.drop last.2).length), r0.2 + r1.2)
-              else
-                some (⟨s.vec, s.set.take first.2 ++ s.set.drop last.2⟩, (false, first.2), r0.2)
-            else
-              none  -- _set.erase of a range that ends after end()
-          else
-            none  -- _set.erase of a range with last before first
-
-/-- smallset.hpp:447 `swap(other)`: (state, state of the other set, returned value, comparator calls of the inline scans); `none` = undefined behaviour -/
-def swap (lt : α → α → Bool) (N : Nat) (s : Sets.SSet α) (o : Sets.SSet α) : Option (Sets.SSet α × Sets.SSet α × Unit × Nat) :=
-  some (o, s, (), 0)
-
-/-- smallset.hpp:309 `insert(iter, cref)`: (state, returned value, comparator calls of the inline scans); `none` = undefined behaviour -/
-def insert_at_ptr (lt : α → α → Bool) (N : Nat) (s : Sets.SSet α) (hint : Bool × Nat) (v : α) : Option (Sets.SSet α × (Bool × Nat) × Nat) :=
-  match isSmall lt N s with  -- L310
-  | none => none
-  | some r0 =>
-    if r0.1 then  -- L310
-      match insert_small lt N s v with  -- L310
-      | none => none
-      | some r1 =>
-        some (r1.1, (r1.2.1.1.1, r1.2.1.1.2), r0.2 + r1.2.2)
-    else
-      if hint.1 then  -- L310 (ToSetIt: needs an iterator of the backing set)
-        none  -- ToSetIt: an iterator of the inline vector is used as an iterator of the backing set
-      else
-        let r1 := FS.insertVal lt s.set v  -- L310
-        some (⟨s.vec, r1.1⟩, (false, r1.2.1), r0.2)
-
-/-- smallset.hpp:309 `insert(iter, cref)`: (state, returned value, comparator calls of the inline scans); `none` = undefined behaviour -/
-def insert_at_var (lt : α → α → Bool) (N : Nat) (s : Sets.SSet α) (hint : Bool × Nat) (v : α) : Option (Sets.SSet α × (Bool × Nat) × Nat) :=
-  match isSmall lt N s with  -- L310
-  | none => none
-  | some r0 =>
-    if r0.1 then  -- L310
-      match insert_small lt N s v with  -- L310
-      | none => none
-      | some r1 =>
-        some (r1.1, (r1.2.1.1.1, r1.2.1.1.2), r0.2 + r1.2.2)
-    else
-      if hint.1 then  -- L622 (toSetIt(): needs an iterator of the backing set)
-        none  -- toSetIt(): an iterator of the inline vector is used as an iterator of the backing set
-      else
-        let r1 := FS.insertVal lt s.set v  -- L310
-        some (⟨s.vec, r1.1⟩, (false, r1.2.1), r0.2)
-
-/-- smallset.hpp:313 `insert(iter, rref)`: (state, returned value, comparator calls of the inline scans); `none` = undefined behaviour -/
-def insert_at_rv_ptr (lt : α → α → Bool) (N : Nat) (s : Sets.SSet α) (hint : Bool × Nat) (v : α) : Option (Sets.SSet α × (Bool × Nat) × Nat) :=
-  match isSmall lt N s with  -- L314
-  | none => none
-  | some r0 =>
-    if r0.1 then  -- L314
-      match insert_small_rv lt N s v with  -- L314
-      | none => none
-      | some r1 =>
-        some (r1.1, (r1.2.1.1.1, r1.2.1.1.2), r0.2 + r1.2.2)
-    else
-      if hint.1 then  -- L314 (ToSetIt: needs an iterator of the backing set)
-        none  -- ToSetIt: an iterator of the inline vector is used as an iterator of the backing set
-      else
-        let r1 := FS.insertVal lt s.set v  -- L314
-        some (⟨s.vec, r1.1⟩, (false, r1.2.1), r0.2)
-
-/-- smallset.hpp:313 `insert(iter, rref)`: (state, returned value, comparator calls of the inline scans); `none` = undefined behaviour -/
-def insert_at_rv_var (lt : α → α → Bool) (N : Nat) (s : Sets.SSet α) (hint : Bool × Nat) (v : α) : Option (Sets.SSet α × (Bool × Nat) × Nat) :=
-  match isSmall lt N s with  -- L314
-  | none => none
-  | some r0 =>
-    if r0.1 then  -- L314
-      match insert_small_rv lt N s v with  -- L314
-      | none => none
-      | some r1 =>
-        some (r1.1, (r1.2.1.1.1, r1.2.1.1.2), r0.2 + r1.2.2)
-    else
-      if hint.1 then  -- L622 (toSetIt(): needs an iterator of the backing set)
-        none  -- toSetIt(): an iterator of the inline vector is used as an iterator of the backing set
-      else
-        let r1 := FS.insertVal lt s.set v  -- L314
-        some (⟨s.vec, r1.1⟩, (false, r1.2.1), r0.2)
-
-/-- smallset.hpp:466 `extract(cref)`: (state, returned value, comparator calls of the inline scans); `none` = undefined behaviour -/
-def extract (lt : α → α → Bool) (N : Nat) (s : Sets.SSet α) (key : α) : Option (Sets.SSet α × Option α × Nat) :=
-  match isSmall lt N s with  -- L467
-  | none => none
-  | some r0 =>
-    if r0.1 then  -- L467
-      match mfind_small lt N s key with  -- L468
-      | none => none
-      | some r1 =>
-        if r1.2.1 = r1.1.vec.length then  -- L470
-          some (r1.1, none, r0.2 + r1.2.2)
-        else
-          match r1.1.vec[r1.2.1]? with  -- L471
-          | none => none
-          | some x2 =>
-            if r1.2.1 < r1.1.vec.length then  -- L472 (_vec.erase)
-              some (⟨r1.1.vec.eraseIdx r1.2.1, r1.1.set⟩, some x2, r0.2 + r1.2.2)
-            else
-              none  -- _vec.erase of an iterator outside [begin, end)
-    else
-      let r1 := Sets.findC lt s.set key  -- L476
-      match r1.1 with  -- L476 (the backing set: key absent / found at an index)
-      | none =>
-        some (s, none, r0.2)
-      | some i2 =>
-        match s.set[i2]? with  -- L476
-        | none => none
-        | some x3 =>
-          some (⟨s.vec, s.set.eraseIdx i2⟩, some x3, r0.2)
-
-/-- smallset.hpp:453 `extract(iter)`: (state, returned value, comparator calls of the inline scans); `none` = undefined behaviour -/
-def extract_at_ptr (lt : α → α → Bool) (N : Nat) (s : Sets.SSet α) (position : Bool × Nat) : Option (Sets.SSet α × Option α × Nat) :=
-  match isSmall lt N s with  -- L454
-  | none => none
-  | some r0 =>
-    if r0.1 then  -- L454
-      if position.1 then  -- L455 (ToVecIt: needs an iterator of the inline vector)
-        match s.vec[position.2]? with  -- L456
-        | none => none
-        | some x1 =>
-          if position.2 < s.vec.length then  -- L457 (_vec.erase)
-            some (⟨s.vec.eraseIdx position.2, s.set⟩, some x1, r0.2)
-          else
-            none  -- _vec.erase of an iterator outside [begin, end)
-      else
-        none  -- ToVecIt: an iterator of the backing set is used as an iterator of the inline vector
-    else
-      if position.1 then  -- L460 (ToSetIt: needs an iterator of the backing set)
-        none  -- ToSetIt: an iterator of the inline vector is used as an iterator of the backing set
-      else
-        match s.set[position.2]? with  -- L461
-        | none => none
-        | some x1 =>
-          some (⟨s.vec, s.set.eraseIdx position.2⟩, some x1, r0.2)
-
-/-- smallset.hpp:453 `extract(iter)`: (state, returned value, comparator calls of the inline scans); `none` = undefined behaviour -/
-def extract_at_var (lt : α → α → Bool) (N : Nat) (s : Sets.SSet α) (position : Bool × Nat) : Option (Sets.SSet α × Option α × Nat) :=
-  match isSmall lt N s with  -- L454
-  | none => none
-  | some r0 =>
-    if r0.1 then  -- L454
-      if position.1 then  -- L631 (toVecIt(): needs an iterator of the inline vector)
-        match s.vec[position.2]? with  -- L456
-        | none => none
-        | some x1 =>
-          if position.2 < s.vec.length then  -- L457 (_vec.erase)
-            some (⟨s.vec.eraseIdx position.2, s.set⟩, some x1, r0.2)
-          else
-            none  -- _vec.erase of an iterator outside [begin, end)
-      else
-        none  -- toVecIt(): an iterator of the backing set is used as an iterator of the inline vector
-    else
-      if position.1 then  -- L622 (toSetIt(): needs an iterator of the backing set)
-        none  -- toSetIt(): an iterator of the inline vector is used as an iterator of the backing set
-      else
-        match s.set[position.2]? with  -- L461
-        | none => none
-        | some x1 =>
-          some (⟨s.vec, s.set.eraseIdx position.2⟩, some x1, r0.2)
-
-/-- smallset.hpp:319 `insert(node)`: (state, returned value, comparator calls of the inline scans); `none` = undefined behaviour -/
-def insert_node (lt : α → α → Bool) (N : Nat) (s : Sets.SSet α) (nh : Option α) : Option (Sets.SSet α × ((Bool × Nat) × Bool × Option α) × Nat) :=
-  match nh with  -- L319 (node handle: empty / holding a value)
-  | none =>
-    match isSmall lt N s with  -- L261
-    | none => none
-    | some r0 =>
-      if r0.1 then  -- L261
-        some (s, ((true, s.vec.length), false, none), r0.2)
-      else
-        some (s, ((false, s.set.length), false, none), r0.2)
-  | some x0 =>
-    match isSmall lt N s with  -- L261
-    | none => none
-    | some r1 =>
-      if r1.1 then  -- L261
-        match insert_rv lt N s x0 with  -- L322
-        | none => none
-        | some r2 =>
-          if r2.2.1.2 then  -- L323
-            some (r2.1, ((r2.2.1.1.1, r2.2.1.1.2), r2.2.1.2, none), r1.2 + r2.2.2)
-          else
-            some (r2.1, ((r2.2.1.1.1, r2.2.1.1.2), r2.2.1.2, some x0), r1.2 + r2.2.2)
-      else
-        match insert_rv lt N s x0 with  -- L322
-        | none => none
-        | some r2 =>
-          if r2.2.1.2 then  -- L323
-            some (r2.1, ((r2.2.1.1.1, r2.2.1.1.2), r2.2.1.2, none), r1.2 + r2.2.2)
-          else
-            some (r2.1, ((r2.2.1.1.1, r2.2.1.1.2), r2.2.1.2, some x0), r1.2 + r2.2.2)
-
-/-- smallset.hpp:330 `insert(iter, node)`: (state, (returned value, node handle left to the caller), comparator calls of the inline scans); `none` = undefined behaviour -/
-def insert_node_at_ptr (lt : α → α → Bool) (N : Nat) (s : Sets.SSet α) (hint : Bool × Nat) (nh : Option α) : Option (Sets.SSet α × ((Bool × Nat) × Option α) × Nat) :=
-  match nh with  -- L330 (node handle: empty / holding a value)
-  | none =>
-    match isSmall lt N s with  -- L261
-    | none => none
-    | some r0 =>
-      if r0.1 then  -- L261
-        some (s, ((true, s.vec.length), none), r0.2)
-      else
-        some (s, ((false, s.set.length), none), r0.2)
-  | some x0 =>
-    match size lt N s with  -- L332
-    | none => none
-    | some r1 =>
-      match insert_at_rv_ptr lt N s (hint.1, hint.2) x0 with  -- L333
-      | none => none
-      | some r2 =>
-        match size lt N r2.1 with  -- L334
-        | none => none
-        | some r3 =>
-          if r3.1 = r1.1 then  -- L334
-            some (r2.1, ((r2.2.1.1, r2.2.1.2), some x0), r1.2 + r2.2.2 + r3.2)
-          else
-            some (r2.1, ((r2.2.1.1, r2.2.1.2), none), r1.2 + r2.2.2 + r3.2)
-
-/-- smallset.hpp:330 `insert(iter, node)`: (state, (returned value, node handle left to the caller), comparator calls of the inline scans); `none` = undefined behaviour -/
-def insert_node_at_var (lt : α → α → Bool) (N : Nat) (s : Sets.SSet α) (hint : Bool × Nat) (nh : Option α) : Option (Sets.SSet α × ((Bool × Nat) × Option α) × Nat) :=
-  match nh with  -- L330 (node handle: empty / holding a value)
-  | none =>
-    match isSmall lt N s with  -- L261
-    | none => none
-    | some r0 =>
-      if r0.1 then  -- L261
-        some (s, ((true, s.vec.length), none), r0.2)
-      else
-        some (s, ((false, s.set.length), none), r0.2)
-  | some x0 =>
-    match size lt N s with  -- L332
-    | none => none
-    | some r1 =>
-      match insert_at_rv_var lt N s (hint.1, hint.2) x0 with  -- L333
-      | none => none
-      | some r2 =>
-        match size lt N r2.1 with  -- L334
-        | none => none
-        | some r3 =>
-          if r3.1 = r1.1 then  -- L334
-            some (r2.1, ((r2.2.1.1, r2.2.1.2), some x0), r1.2 + r2.2.2 + r3.2)
-          else
-            some (r2.1, ((r2.2.1.1, r2.2.1.2), none), r1.2 + r2.2.2 + r3.2)
-
-/-- smallset.hpp:522 `operator==(other) const`: (returned value, comparator calls of the inline scans); `none` = undefined behaviour -/
-def op_eq (lt : α → α → Bool) (N : Nat) (s : Sets.SSet α) (o : Sets.SSet α) (eqT : α → α → Bool) : Option (Bool × Nat) :=
-  match size lt N s with  -- L523
-  | none => none
-  | some r0 =>
-    match size lt N o with  -- L523
-    | none => none
-    | some r1 =>
-      if r0.1 = r1.1 then  -- L523
-        match isSmall lt N s with  -- L526
-        | none => none
-        | some r2 =>
-          if r2.1 then  -- L526
-            if isSmallOf o then  -- L258
-              some (isPermutation eqT s.vec o.vec, r0.2 + r1.2 + r2.2 + r2.2 + r2.2)
-            else
-              some (isPermutation eqT s.vec o.set, r0.2 + r1.2 + r2.2 + r2.2 + r2.2)
-          else
-            if isSmallOf o then  -- L526
-              some (isPermutation eqT s.set o.vec, r0.2 + r1.2 + r2.2 + r2.2 + r2.2)
-            else
-              some (vecEq eqT s.set o.set, r0.2 + r1.2 + r2.2)
-      else
-        some (false, r0.2 + r1.2)
-
-/-- smallset.hpp:534 `operator!=(other) const`: (returned value, comparator calls of the inline scans); `none` = undefined behaviour -/
-def op_ne (lt : α → α → Bool) (N : Nat) (s : Sets.SSet α) (o : Sets.SSet α) (eqT : α → α → Bool) : Option (Bool × Nat) :=
-  match op_eq lt N s o eqT with  -- L534
-  | none => none
-  | some r0 =>
-    if r0.1 then  -- L534
-      some (false, r0.2)
-    else
-      some (true, r0.2)
-
-/-- smallset.hpp:688 the lambda given to the sort of `ComputeSortedPtrVec`, on the pointees; `lt_default` is a DEFAULT-CONSTRUCTED comparator (`Compare()`), not the comparator object of the set; comparator calls are not counted -/
-def op_lt_pred (lt : α → α → Bool) (lt_default : α → α → Bool) (p1 : α) (p2 : α) : Bool :=
-  lt_default p1 p2
-
-/-- smallset.hpp:582 `operator<(other) const`: (returned value, comparator calls of the inline scans); `none` = undefined behaviour -/
-def op_lt (lt : α → α → Bool) (N : Nat) (s : Sets.SSet α) (o : Sets.SSet α) (lt_default : α → α → Bool) (ltT : α → α → Bool) : Option (Bool × Nat) :=
-  match isSmall lt N s with  -- L589
-  | none => none
-  | some r0 =>
-    if r0.1 then  -- L589
-      if isSmallOf o then  -- L591
-        some (vecLess ltT (sortedBy (op_lt_pred lt lt_default) s.vec) (sortedBy (op_lt_pred lt lt_default) o.vec), r0.2)
-      else
-        some (vecLess ltT (sortedBy (op_lt_pred lt lt_default) s.vec) o.set, r0.2)
-    else
-      if isSmallOf o then  -- L600
-        some (vecLess ltT s.set (sortedBy (op_lt_pred lt lt_default) o.vec), r0.2)
-      else
-        some (vecLess ltT s.set o.set, r0.2)
-
-/-- smallset.hpp:608 `operator<=(other) const`: (returned value, comparator calls of the inline scans); `none` = undefined behaviour -/
-def op_le (lt : α → α → Bool) (N : Nat) (s : Sets.SSet α) (o : Sets.SSet α) (lt_default : α → α → Bool) (ltT : α → α → Bool) : Option (Bool × Nat) :=
-  match op_lt lt N o s lt_default ltT with  -- L608
-  | none => none
-  | some r0 =>
-    if r0.1 then  -- L608
-      some (false, r0.2)
-    else
-      some (true, r0.2)
-
-/-- smallset.hpp:609 `operator>(other) const`: (returned value, comparator calls of the inline scans); `none` = undefined behaviour -/
-def op_gt (lt : α → α → Bool) (N : Nat) (s : Sets.SSet α) (o : Sets.SSet α) (lt_default : α → α → Bool) (ltT : α → α → Bool) : Option (Bool × Nat) :=
-  match op_lt lt N o s lt_default ltT with  -- L609
-  | none => none
-  | some r0 =>
-    some (r0.1, r0.2)
-
-/-- smallset.hpp:610 `operator>=(other) const`: (returned value, comparator calls of the inline scans); `none` = undefined behaviour -/
-def op_ge (lt : α → α → Bool) (N : Nat) (s : Sets.SSet α) (o : Sets.SSet α) (lt_default : α → α → Bool) (ltT : α → α → Bool) : Option (Bool × Nat) :=
-  match op_lt lt N s o lt_default ltT with  -- L610
-  | none => none
-  | some r0 =>
-    if r0.1 then  -- L610
-      some (false, r0.2)
-    else
-      some (true, r0.2)
-
 end AmcVerif.Gen.SmallSet
